@@ -811,6 +811,23 @@ class ValueDecimal(Value):
 
     def __repr__(self):
         result = repr(self.value)
+        if "e" in result:
+            # expand the exponent form to positional notation,
+            # which is the only form the lexer reads back
+            mantissa, exponent = result.split("e")
+            sign = ""
+            if mantissa.startswith("-"):
+                sign = "-"
+                mantissa = mantissa[1:]
+            intpart, _, fraction = mantissa.partition(".")
+            digits = intpart + fraction
+            point = len(intpart) + int(exponent)
+            if point <= 0:
+                result = sign + "0." + "0" * (-point) + digits
+            elif point >= len(digits):
+                result = sign + digits + "0" * (point - len(digits))
+            else:
+                result = sign + digits[:point] + "." + digits[point:]
         if "." not in result:
             result += ".0"
         return result
